@@ -396,7 +396,10 @@ func RunShard(prop, tier string, seed uint64, shard, shards int, plan []PlanItem
 					return
 				}
 				lastFail, lastCase, lastTrace = res.Fail, c, res.Trace
-				if res.Fail.Kind == "hang" {
+				if res.Fail.Kind == "hang" || res.Fail.Kind == "race" {
+					// hang: goroutines are leaked; race: the detector reports each
+					// racing pair only once per process, so re-execution (shrinking)
+					// cannot reproduce it here. Report the case as found.
 					panic(hangAbort{res})
 				}
 				searching = false
@@ -421,7 +424,7 @@ func RunShard(prop, tier string, seed uint64, shard, shards int, plan []PlanItem
 			return st, harnessErr
 		}
 		if lastFail != nil {
-			rp := &Replay{Property: lastFail.Prop, Check: prop, Scenario: sc.Name, Seed: seed, Shard: shard, Case: lastCase, Verdict: lastFail, Trace: fmt.Sprintf("%016x", lastTrace), Minimal: lastFail.Kind != "hang"}
+			rp := &Replay{Property: lastFail.Prop, Check: prop, Scenario: sc.Name, Seed: seed, Shard: shard, Case: lastCase, Verdict: lastFail, Trace: fmt.Sprintf("%016x", lastTrace), Minimal: lastFail.Kind != "hang" && lastFail.Kind != "race"}
 			path := filepath.Join(outDir, fmt.Sprintf("%s-%s-%d-%d.json", lastFail.Prop, sc.Name, seed, shard))
 			b, _ := json.MarshalIndent(rp, "", " ")
 			if err := os.MkdirAll(outDir, 0o755); err != nil {
@@ -432,8 +435,8 @@ func RunShard(prop, tier string, seed uint64, shard, shards int, plan []PlanItem
 			}
 			st.Violation = append(st.Violation, path)
 			st.VioProps = append(st.VioProps, lastFail.Prop)
-			if lastFail.Kind == "hang" {
-				break // goroutines leaked; stop this shard
+			if lastFail.Kind == "hang" || lastFail.Kind == "race" {
+				break // goroutines leaked / report suppression: stop this shard
 			}
 		}
 	}
